@@ -1,6 +1,6 @@
 import Driver.Proto
 import IronCalc.Book.Sheets
-open IronCalc.Book IronCalc.Formula
+open IronCalc.Book IronCalc.RefTree
 namespace Driver
 
 /-- ASCII folding: the generators vary case only in ASCII letters -/
